@@ -109,6 +109,19 @@ fn map_edits(m: &MapSpec) -> Vec<(&'static str, MapSpec)> {
   push("map: drop sourcesContent", &|n| {
     n.contents.clear();
   });
+  // lists that hold no text at all, but differ: [] / [""] / ["", ""]
+  push("map: sourcesContent entries emptied", &|n| {
+    if n.contents.is_empty() {
+      n.contents.push(String::new());
+    } else {
+      n.contents.iter_mut().for_each(|c| c.clear());
+    }
+  });
+  push("map: sourcesContent one more empty entry", &|n| {
+    if n.contents.iter().all(|c| c.is_empty()) {
+      n.contents.push(String::new());
+    }
+  });
   push("map: name string", &|n| {
     if let Some(s) = n.names.first_mut() {
       s.push('_');
